@@ -732,3 +732,64 @@ func ruleNTOPAQUE(c *Ctx, r *Report) {
 	}
 	r.floor(rule, "functions receiving the operator stack", n, 12)
 }
+
+// WRAP-KEEP (C06/C15): the default-field wrapper never drops part of the operand it is given.
+func ruleWRAPKEEP(c *Ctx, r *Report) {
+	const rule = "WRAP-KEEP"
+	r.doc(rule, "every value the default-field wrapper of the reducers can return is its operand argument itself, or a constructor call that has the operand argument itself (not a sub-term of it) among its arguments: wrapping adds a node around the operand and never removes a node from it (a modifier such as ~ or ^ looked through and dropped disappears from the tree, and with it the rendering error the drivers promise for it)")
+	pt := c.prodTable()
+	if pt.Wrapper == nil {
+		r.ok(rule, "no-wrapper", "-", "no default-field wrapper function: the productions build their nodes from window positions directly (PROD-GUARD)")
+		return
+	}
+	w := pt.Wrapper
+	n := 0
+	for _, b := range w.Blocks {
+		for _, in := range b.Instrs {
+			ret, ok := in.(*ssa.Return)
+			if !ok || len(ret.Results) != 1 {
+				continue
+			}
+			var flat func(v ssa.Value, d int, out *[]ssa.Value)
+			flat = func(v ssa.Value, d int, out *[]ssa.Value) {
+				if ph, ok := v.(*ssa.Phi); ok && d < 5 {
+					for _, e := range ph.Edges {
+						if e != v {
+							flat(e, d+1, out)
+						}
+					}
+					return
+				}
+				*out = append(*out, v)
+			}
+			var vals []ssa.Value
+			flat(ret.Results[0], 0, &vals)
+			for _, v := range vals {
+				n++
+				key := "result|" + c.key(v, nil)
+				if c.resolve(v, nil) == ssa.Value(w.Params[0]) {
+					r.ok(rule, key, c.instrPos(ret), "the operand itself")
+					continue
+				}
+				kept := false
+				if call, ok := c.resolve(v, nil).(*ssa.Call); ok && call.Call.StaticCallee() != nil && inLib(call.Call.StaticCallee()) {
+					for _, a := range call.Call.Args {
+						ra := c.resolve(a, nil)
+						if mi, ok := ra.(*ssa.MakeInterface); ok {
+							ra = c.resolve(mi.X, nil)
+						}
+						if ra == ssa.Value(w.Params[0]) {
+							kept = true
+						}
+					}
+				}
+				if kept {
+					r.ok(rule, key, c.instrPos(ret), "a node built around the operand")
+				} else {
+					r.bad(rule, key, c.instrPos(ret), fmt.Sprintf("%s can return %s, which does not contain its operand whole: a node of the operand (a fuzzy or boost modifier, a NOT, …) is dropped from the tree when a default field is set", fnName(w), c.key(v, nil)))
+				}
+			}
+		}
+	}
+	r.floor(rule, "wrapper results", n, 1)
+}
